@@ -504,9 +504,10 @@ def repack(d, dest, rows=None):
 TRACED = ("conductor/cli/restore.py", "conductor/execution/version_index.py")
 
 
-def crash_pre(k, log_path=None):
+def crash_pre(k, log_path=None, sig=None):
     """pre-hook for implrun.run_cond: count 'line' events in restore.py and version_index.py;
-    os._exit(137) when the k-th one is about to execute (k=None: only log them)"""
+    os._exit(137) when the k-th one is about to execute (k=None: only log them); with sig: the process sends ITSELF that signal
+    there instead (a graceful kill: SIGTERM / Ctrl-C) and goes on -- Conductor's own handler decides what happens"""
 
     def pre():
         import sys
@@ -520,7 +521,9 @@ def crash_pre(k, log_path=None):
                 if fd is not None:
                     os.write(fd, ("%s:%d\n" % (os.path.basename(frame.f_code.co_filename), frame.f_lineno)).encode())
                 if k is not None and state["n"] == k:
-                    os._exit(137)
+                    if sig is None:
+                        os._exit(137)
+                    os.kill(os.getpid(), sig)
             return local
 
         def glob(frame, _event, _arg):
